@@ -232,7 +232,7 @@ def run(c):
     c.assumptions += [
         "lookups complete: weak fairness on FetchReturn (a fetcher that never answers is outside the property)",
         "scc::HashIndex, tokio::sync::Notify (a Notified future sees every notify_waiters issued after its creation) and CancellationToken are trusted; their contracts are modelled, not their implementations",
-        "verif hook serialises operations on managed_paths with one mutex while a sink is installed (same-key operations are already mutually exclusive inside scc)",
+        "the hook stamps map_insert/map_load under the bucket lock of scc::HashIndex; remove_sync does not expose its lock, so removals are bracketed by two events and take effect in between (hidden step placed by TLC)",
         "replay: granularity = await points of a current_thread runtime (run-to-quiescence after every external event); idle expiry uses a real 120 ms idle period (retried with 4x longer periods when the order was disturbed)",
         "record: real thread schedules are not reproducible; the seed fixes the scenario plan, the delays at yield points and the fetcher's answers",
         "TLC 1.8.0 / 2026.09, CommunityModules Json/IOUtils",
@@ -245,13 +245,15 @@ def run(c):
     stages = set((os.environ.get("VERIF_C20_STAGES") or "mc,mut,gen,rec").split(","))
 
     # ---- 1. exhaustive runs -------------------------------------------------------------------
+    # distinct states (measured): wake 128 474; drop 125 300; dropfull 976 432; handle3 547 004
     cfgs = [("wake", dict(wait=["c1", "c2"], nw=2, maxfetch=1, reclaim=True)),
-            ("drop", dict(wait=["c1"], cached=["c2"], handle=["c3"], nw=2, maxfetch=1, cancel=["c1"], reclaim=True, used=True))]
+            ("drop", dict(wait=["c1"], cached=["c2"], handle=["c3"], nw=2, maxfetch=1, cancel=["c1"], reclaim=False))]
     if thorough:
-        cfgs += [("refetch", dict(wait=["c1", "c2"], nw=2, maxfetch=2, reclaim=False, used=True)),
+        cfgs += [("dropfull", dict(wait=["c1"], cached=["c2"], handle=["c3"], nw=2, maxfetch=1, cancel=["c1"], reclaim=True, used=True)),
+                 ("refetch", dict(wait=["c1", "c2"], nw=2, maxfetch=2, reclaim=False, used=True)),
                  ("handle3", dict(wait=["c1", "c2"], handle=["c3"], nw=2, maxfetch=1, reclaim=False)),
                  ("twokeys", dict(wait=["c1", "c2"], key2=["c2"], handle=["c3"], nw=2, keys="{1, 2}", maxfetch=1, reclaim=False))]
-    need = ["FirstPoll", "FetchReturn", "Finish", "StopExit", "ExitRemove", "ExitNotify", "ExitClear", "Start", "Ensure",
+    need = ["FirstPoll", "FetchReturn", "Finish", "StopExit", "ExitUpgrade", "ExitRemove", "ExitNotify", "ExitClear", "Start", "Ensure",
             "ActiveLoad", "CheckReg", "Wake", "Final", "Stop", "Drop", "IdleCheck"]
     for name, k in cfgs:
         if "mc" not in stages:
@@ -411,4 +413,4 @@ def run(c):
     c.cov["traces_validated_against_impl"] = traces
     c.cov["evaluations"] += total_replayed
     c.cov["distinct_nontrivial"] += len(nontriv)
-    c.sample({"trace_events": "map_insert/map_load/map_remove, fetch_start/fetch_done, exiting/exit_notify/worker_exit, caller_check/caller_woken (hook, under the lock), caller_start/caller_done/handle_get/drop (harness)", "record_runs": rec_runs})
+    c.sample({"trace_events": "map_insert/map_load (bucket lock), map_remove_begin/map_remove/map_remove_end (bracket), fetch_start/fetch_done, exiting/exit_notify/worker_exit, caller_check/caller_woken (hook, under the lock), caller_start/caller_done/handle_get/drop (harness)", "record_runs": rec_runs})
